@@ -245,8 +245,12 @@ class Question(object):
             if error is not None:
                 self._write_error(io, error)
 
+            # Only invalid answers are asked for again: a failure to ask,
+            # like the end of the input, is not
+            answer = interviewer()
+
             try:
-                return self._validator(interviewer())
+                return self._validator(answer)
             except Exception as e:
                 error = e
 
